@@ -240,6 +240,17 @@ def check_plumbing(ck, m, label):
     return n
 
 
+def check_helpers(ck):
+    """The four integer-result helper functions (also on the path of every #[int_result] call, hence shared with C01)."""
+    f = facts.cfg_cglue()
+    for name, fnc, arg in (("into_int_out_result", check_into, True), ("into_int_result", check_into, False),
+                           ("from_int_result", check_from, True), ("from_int_result_empty", check_from, False)):
+        fn = find_fn(f, RES + name, "cglue-lib")
+        if ck.require(fn is not None, "function cglue::result::" + name):
+            fnc(ck, fn, arg)
+    return f
+
+
 def run(tier):
     ck = report.Check("C13", tier, level="other")
     f = facts.cfg_cglue()
